@@ -121,7 +121,8 @@ def directed_families(ctx):
             # white space is required around + and - (and kept around * for uniformity)
             g = [g[0]] + [x if x.strip(' \n\t') != x or x in (' ',) else ' ' + x + ' ' for x in g[1:-1]] + [g[-1]]
             inner = g[0] + ''.join(t + g[i + 1] for i, t in enumerate(toks))
-            text = 'a{width:calc(%s);top:0}' % inner
+            fname = rng.choice(['calc', 'calc', 'CALC', 'Calc', 'ca\\lc', 'c\\41LC', '\\63 alc'])
+            text = 'a{width:%s(%s);top:0}' % (fname, inner)
             plain = 'a{width:calc(%s);top:0}' % expr
             case = {'text': text, 'family': 'calc-comments'}
             ctx.case(text)
@@ -134,7 +135,9 @@ def directed_families(ctx):
             except Exception as e:
                 ctx.violation('raises', case, '%s: %s' % (type(e).__name__, e), KNOWN_PRED)
                 continue
-            nocom = S.strip_comments(v1 or '').replace(' ', '') if v1 else None
+            nocom = S.strip_comments(v1 or '').replace(' ', '').replace('\\', '') if v1 else None
+            if nocom and nocom.lower().startswith('calc('):
+                nocom = 'calc(' + nocom[5:]
             if v1 is None or nocom != ('calc(%s)' % expr).replace(' ', '') or len(got) != len(want) or len(got[0][2]) != len(want[0][2]):
                 ctx.violation('denotation', case, 'width reads %r (without comments %r), expected calc(%s); sheet %r' % (v1, nocom, expr, got), KNOWN_PRED)
     # comments inside the declaration block of a margin box
